@@ -863,6 +863,12 @@ pub fn witnesses() -> Vec<String> {
     "id: cycdec2\nlanguage: js\nutils:\n  leaf: {kind: identifier}\n  A: {matches: leaf, all: [{matches: B}]}\n  B: {matches: leaf, nthChild: {position: 1, ofRule: {matches: A}}}\nrule: {kind: identifier, matches: B}\n".into(),
     "id: cycdec3\nlanguage: python\nutils:\n  leaf: {kind: identifier}\n  A: {matches: leaf, not: {matches: A}}\nrule: {kind: identifier, matches: A}\n".into(),
     "id: cycdec4\nlanguage: js\nutils:\n  leaf: {kind: identifier}\n  A: {kind: identifier, matches: leaf, regex: a, any: [{all: [{not: {matches: C}}]}]}\n  B: {matches: A}\n  C: {any: [{matches: B}, {kind: number}]}\nrule: {kind: identifier, matches: C}\n".into(),
+    // a rewriter whose fix expands beyond the text that is rewritten (ffe2eb7), with and without joinBy
+    "id: rwexp\nlanguage: js\nrule: {pattern: foo($A)}\ntransform: {R: {rewrite: {source: $A, rewriters: [rw]}}}\nrewriters:\n- {id: rw, rule: {kind: number}, fix: {template: X, expandEnd: {regex: '\\)'}}}\nfix: bar($R)\n".into(),
+    "id: rwexp2\nlanguage: js\nrule: {pattern: foo($$$A)}\ntransform: {R: {rewrite: {source: $$$A, rewriters: [rw], joinBy: '+'}}}\nrewriters:\n- {id: rw, rule: {kind: number}, fix: {template: X, expandStart: {regex: '\\('}, expandEnd: {regex: '[,)]'}}}\nfix: bar($R)\n".into(),
+    // a rule that is turned off AND restricted to paths: it reports nothing, through any printer
+    "id: offglob\nlanguage: js\nseverity: off\nfiles: ['**/*.js', 'src/**']\nrule: {kind: identifier}\n".into(),
+    "id: offglob2\nlanguage: js\nseverity: off\nignores: ['**/nothing/**']\nrule: {pattern: foo($$$A)}\n".into(),
     "id: h9\nlanguage: js\nutils:\n  A: {inside: {matches: B, stopBy: end}}\n  B: {has: {matches: A, stopBy: end}}\nrule: {kind: identifier, matches: A}\n".into(),
     "id: dup\nlanguage: js\nrule: {pattern: foo($$$A)}\nrewriters:\n- {id: r, rule: {kind: identifier}, fix: x}\n- {id: r, rule: {kind: number}, fix: y}\n".into(),
     "id: of\nlanguage: js\nutils:\n  U: {nthChild: {position: 1, ofRule: {matches: U}}}\nrule: {matches: U}\n".into(),
